@@ -29,6 +29,8 @@ func init() {
 		{Name: "body-stage-in-helpers-single-exit", Silent: true, Edits: []Edit{{"packet.go", "\tif f.remainingLen == 0 {\n\t\treturn p, nil\n\t}\n\tdata := make([]byte, int(f.remainingLen))\n\tif _, err := io.ReadFull(r, data); err != nil {\n\t\treturn nil, fmt.Errorf(\n\t\t\t\"%s ReadRemaining: %w\",\n\t\t\tfirstByte(f.fixed).String(), err,\n\t\t)\n\t}\n\n\tif err := p.UnmarshalBinary(data); err != nil {\n\t\treturn nil, fmt.Errorf(\n\t\t\t\"%s %v UnmarshalBinary: %w\",\n\t\t\tfirstByte(f.fixed).String(), f.remainingLen, err,\n\t\t)\n\t}\n\treturn p, nil\n}\n", "\tif f.remainingLen > 0 {\n\t\tdata, err := f.readBody(r)\n\t\tif err != nil {\n\t\t\treturn nil, f.wrap(\"ReadRemaining\", err)\n\t\t}\n\t\tif err := p.UnmarshalBinary(data); err != nil {\n\t\t\treturn nil, f.wrap(fmt.Sprintf(\"%v UnmarshalBinary\", f.remainingLen), err)\n\t\t}\n\t}\n\treturn p, nil\n}\n\nfunc (f *fixedHeader) readBody(r io.Reader) ([]byte, error) {\n\tdata := make([]byte, int(f.remainingLen))\n\tif _, err := io.ReadFull(r, data); err != nil {\n\t\treturn nil, err\n\t}\n\treturn data, nil\n}\n\nfunc (f *fixedHeader) wrap(op string, err error) error {\n\treturn fmt.Errorf(\"%s %s: %w\", firstByte(f.fixed).String(), op, err)\n}\n"}}},
 		{Name: "body-stage-in-helpers-one-byte-body-skipped", Rule: "R6.4", Where: "readBody", Edits: []Edit{{"packet.go", "\tif f.remainingLen == 0 {\n\t\treturn p, nil\n\t}\n\tdata := make([]byte, int(f.remainingLen))\n\tif _, err := io.ReadFull(r, data); err != nil {\n\t\treturn nil, fmt.Errorf(\n\t\t\t\"%s ReadRemaining: %w\",\n\t\t\tfirstByte(f.fixed).String(), err,\n\t\t)\n\t}\n\n\tif err := p.UnmarshalBinary(data); err != nil {\n\t\treturn nil, fmt.Errorf(\n\t\t\t\"%s %v UnmarshalBinary: %w\",\n\t\t\tfirstByte(f.fixed).String(), f.remainingLen, err,\n\t\t)\n\t}\n\treturn p, nil\n}\n", "\tif f.remainingLen > 1 {\n\t\tdata, err := f.readBody(r)\n\t\tif err != nil {\n\t\t\treturn nil, f.wrap(\"ReadRemaining\", err)\n\t\t}\n\t\tif err := p.UnmarshalBinary(data); err != nil {\n\t\t\treturn nil, f.wrap(fmt.Sprintf(\"%v UnmarshalBinary\", f.remainingLen), err)\n\t\t}\n\t}\n\treturn p, nil\n}\n\nfunc (f *fixedHeader) readBody(r io.Reader) ([]byte, error) {\n\tdata := make([]byte, int(f.remainingLen))\n\tif _, err := io.ReadFull(r, data); err != nil {\n\t\treturn nil, err\n\t}\n\treturn data, nil\n}\n\nfunc (f *fixedHeader) wrap(op string, err error) error {\n\treturn fmt.Errorf(\"%s %s: %w\", firstByte(f.fixed).String(), op, err)\n}\n"}}},
 		{Name: "header-stage-refuses-a-length-before-the-body-is-read", Rule: "R6.4", Where: "header-exits", Edits: []Edit{{"packet.go", "\tm, err := f.remainingLen.ReadFrom(r)\n\treturn n + m, err", "\tm, err := f.remainingLen.ReadFrom(r)\n\tif err != nil {\n\t\treturn n + m, err\n\t}\n\tif f.remainingLen == 1 && byte(f.fixed)&0xf0 == PUBACK {\n\t\treturn n + m, newMalformed(f, \"remaining length\", \"missing data\")\n\t}\n\treturn n + m, nil"}}},
+		{Name: "header-reads-inlined-body-stage-by-value", Silent: true, Edits: []Edit{{"packet.go", "\tif _, err := fh.ReadFrom(r); err != nil {\n\t\treturn nil, fmt.Errorf(\"ReadPacket: %w\", err)\n\t}\n\n\treturn fh.ReadRemaining(r)\n}\n\n// Dump writes all packet fields to the given writer, including empty\n// value ones.\nfunc Dump(w io.Writer, p Packet) {\n\tif p, ok := p.(interface{ dump(io.Writer) }); ok {\n\t\tp.dump(w)\n\t}\n}\n\n// Packet and ControlPacket can be used interchangebly.\ntype Packet = ControlPacket\n\ntype ControlPacket interface {\n\t// Write the packet in wireformat to a writer\n\tio.WriterTo\n\n\t// Unmarshal wireformat\n\tencoding.BinaryUnmarshaler\n\n\t// Return a short readable string suitable for logging\n\tfmt.Stringer\n}\n\n// HasPacketID is implemented by packets carrying a packet ID.\ntype HasPacketID interface {\n\tPacketID() uint16\n}\n\n// HasReason is implemented by packets carrying a reason code.\ntype HasReason interface {\n\tReasonCode() ReasonCode\n}\n\n// HasWellFormed is implemented by packets that implement WellFormed.\ntype HasWellFormed interface {\n\tWellFormed() *Malformed\n}\n\ntype fixedHeader struct {\n\tfixed        bits\n\tremainingLen vbint\n}\n\n// ReadFrom reads the fixed byte and the remaining length, use\n// ReadRemaining for the rest.\n//\n// Note: ReasonString for splitting this up is so we can compare\n// performance as pahos Unpack works on the remaining only.\nfunc (f *fixedHeader) ReadFrom(r io.Reader) (int64, error) {\n\tn, err := f.fixed.ReadFrom(r)\n\tif err != nil {\n\t\treturn n, err\n\t}\n\tm, err := f.remainingLen.ReadFrom(r)\n\treturn n + m, err\n}\n\n// ReadRemaining reads the reamining data and converts to a control\n// packet.\nfunc (f *fixedHeader) ReadRemaining(r io.Reader) (ControlPacket, error) {", "\n\t// header stage; the fixed byte followed by the remaining length\n\tif _, err := fh.fixed.ReadFrom(r); err != nil {\n\t\treturn nil, fmt.Errorf(\"ReadPacket: %w\", err)\n\t}\n\tif _, err := fh.remainingLen.ReadFrom(r); err != nil {\n\t\treturn nil, fmt.Errorf(\"ReadPacket: %w\", err)\n\t}\n\n\t// body stage\n\treturn fh.ReadRemaining(r)\n}\n\n// Dump writes all packet fields to the given writer, including empty\n// value ones.\nfunc Dump(w io.Writer, p Packet) {\n\tif p, ok := p.(interface{ dump(io.Writer) }); ok {\n\t\tp.dump(w)\n\t}\n}\n\n// Packet and ControlPacket can be used interchangebly.\ntype Packet = ControlPacket\n\ntype ControlPacket interface {\n\t// Write the packet in wireformat to a writer\n\tio.WriterTo\n\n\t// Unmarshal wireformat\n\tencoding.BinaryUnmarshaler\n\n\t// Return a short readable string suitable for logging\n\tfmt.Stringer\n}\n\n// HasPacketID is implemented by packets carrying a packet ID.\ntype HasPacketID interface {\n\tPacketID() uint16\n}\n\n// HasReason is implemented by packets carrying a reason code.\ntype HasReason interface {\n\tReasonCode() ReasonCode\n}\n\n// HasWellFormed is implemented by packets that implement WellFormed.\ntype HasWellFormed interface {\n\tWellFormed() *Malformed\n}\n\n// fixedHeader is the fixed byte and the remaining length as read by\n// ReadPacket, use ReadRemaining for the rest.\n//\n// Note: ReasonString for splitting this up is so we can compare\n// performance as pahos Unpack works on the remaining only.\ntype fixedHeader struct {\n\tfixed        bits\n\tremainingLen vbint\n}\n\n// ReadRemaining reads the reamining data and converts to a control\n// packet. The header is only consulted, never updated.\nfunc (f fixedHeader) ReadRemaining(r io.Reader) (ControlPacket, error) {"}}},
+		{Name: "inlined-header-stage-refuses-large-frames", Rule: "R6.4", Where: "between-stages", Edits: []Edit{{"packet.go", "\tif _, err := fh.ReadFrom(r); err != nil {\n\t\treturn nil, fmt.Errorf(\"ReadPacket: %w\", err)\n\t}\n\n\treturn fh.ReadRemaining(r)\n}\n\n// Dump writes all packet fields to the given writer, including empty\n// value ones.\nfunc Dump(w io.Writer, p Packet) {\n\tif p, ok := p.(interface{ dump(io.Writer) }); ok {\n\t\tp.dump(w)\n\t}\n}\n\n// Packet and ControlPacket can be used interchangebly.\ntype Packet = ControlPacket\n\ntype ControlPacket interface {\n\t// Write the packet in wireformat to a writer\n\tio.WriterTo\n\n\t// Unmarshal wireformat\n\tencoding.BinaryUnmarshaler\n\n\t// Return a short readable string suitable for logging\n\tfmt.Stringer\n}\n\n// HasPacketID is implemented by packets carrying a packet ID.\ntype HasPacketID interface {\n\tPacketID() uint16\n}\n\n// HasReason is implemented by packets carrying a reason code.\ntype HasReason interface {\n\tReasonCode() ReasonCode\n}\n\n// HasWellFormed is implemented by packets that implement WellFormed.\ntype HasWellFormed interface {\n\tWellFormed() *Malformed\n}\n\ntype fixedHeader struct {\n\tfixed        bits\n\tremainingLen vbint\n}\n\n// ReadFrom reads the fixed byte and the remaining length, use\n// ReadRemaining for the rest.\n//\n// Note: ReasonString for splitting this up is so we can compare\n// performance as pahos Unpack works on the remaining only.\nfunc (f *fixedHeader) ReadFrom(r io.Reader) (int64, error) {\n\tn, err := f.fixed.ReadFrom(r)\n\tif err != nil {\n\t\treturn n, err\n\t}\n\tm, err := f.remainingLen.ReadFrom(r)\n\treturn n + m, err\n}\n\n// ReadRemaining reads the reamining data and converts to a control\n// packet.\nfunc (f *fixedHeader) ReadRemaining(r io.Reader) (ControlPacket, error) {", "\n\t// header stage; the fixed byte followed by the remaining length\n\tif _, err := fh.fixed.ReadFrom(r); err != nil {\n\t\treturn nil, fmt.Errorf(\"ReadPacket: %w\", err)\n\t}\n\tif _, err := fh.remainingLen.ReadFrom(r); err != nil {\n\t\treturn nil, fmt.Errorf(\"ReadPacket: %w\", err)\n\t}\n\n\tif fh.remainingLen > 1<<20 {\n\t\treturn nil, fmt.Errorf(\"ReadPacket: frame too large\")\n\t}\n\t// body stage\n\treturn fh.ReadRemaining(r)\n}\n\n// Dump writes all packet fields to the given writer, including empty\n// value ones.\nfunc Dump(w io.Writer, p Packet) {\n\tif p, ok := p.(interface{ dump(io.Writer) }); ok {\n\t\tp.dump(w)\n\t}\n}\n\n// Packet and ControlPacket can be used interchangebly.\ntype Packet = ControlPacket\n\ntype ControlPacket interface {\n\t// Write the packet in wireformat to a writer\n\tio.WriterTo\n\n\t// Unmarshal wireformat\n\tencoding.BinaryUnmarshaler\n\n\t// Return a short readable string suitable for logging\n\tfmt.Stringer\n}\n\n// HasPacketID is implemented by packets carrying a packet ID.\ntype HasPacketID interface {\n\tPacketID() uint16\n}\n\n// HasReason is implemented by packets carrying a reason code.\ntype HasReason interface {\n\tReasonCode() ReasonCode\n}\n\n// HasWellFormed is implemented by packets that implement WellFormed.\ntype HasWellFormed interface {\n\tWellFormed() *Malformed\n}\n\n// fixedHeader is the fixed byte and the remaining length as read by\n// ReadPacket, use ReadRemaining for the rest.\n//\n// Note: ReasonString for splitting this up is so we can compare\n// performance as pahos Unpack works on the remaining only.\ntype fixedHeader struct {\n\tfixed        bits\n\tremainingLen vbint\n}\n\n// ReadRemaining reads the reamining data and converts to a control\n// packet. The header is only consulted, never updated.\nfunc (f fixedHeader) ReadRemaining(r io.Reader) (ControlPacket, error) {"}}},
 		{Name: "early-return-before-body", Rule: "R6.4", Where: "ReadRemaining", Edits: []Edit{{"packet.go", "\tdefault:\n\t\tp = &Undefined{}\n\t}", "\tdefault:\n\t\treturn nil, fmt.Errorf(\"undefined packet type\")\n\t}"}}},
 		{Name: "header-two-byte-buffer", Rule: "R6.2", Where: "(*vbint).ReadFrom", Edits: []Edit{{"wiretypes.go", "\tvar value uint\n\tdata := make([]byte, 1)\n\tvar i int64", "\tvar value uint\n\tdata := make([]byte, 2)\n\tvar i int64"}}},
 		{Name: "header-length-overwritten", Rule: "R6.2", Where: "remainingLen", Edits: []Edit{{"packet.go", "\tm, err := f.remainingLen.ReadFrom(r)\n", "\tm, err := f.remainingLen.ReadFrom(r)\n\tif f.remainingLen > 1<<20 {\n\t\tf.remainingLen = 1 << 20\n\t}\n"}}},
@@ -59,6 +61,51 @@ func classOfAddr(v ssa.Value) (addrClass, ssa.Value, bool) {
 		return addrClass{alloc: x, name: "local " + x.Comment}, x, true
 	}
 	return addrClass{}, nil, false
+}
+
+// storeIntoPrivateTemp: the store writes a field of a local struct whose address never leaves the function (a
+// composite literal used as a value — `fixedHeader{p.fixed, n}.fill(b, i)`): another object than any that a field
+// class rule is about.
+func storeIntoPrivateTemp(st *ssa.Store) bool {
+	fa, ok := st.Addr.(*ssa.FieldAddr)
+	if !ok {
+		return false
+	}
+	al, ok := fa.X.(*ssa.Alloc)
+	if !ok || al.Referrers() == nil {
+		return false
+	}
+	for _, r := range *al.Referrers() {
+		switch x := r.(type) {
+		case *ssa.DebugRef:
+		case *ssa.FieldAddr:
+			// the field addresses themselves are only stored through / loaded from
+			if x.Referrers() != nil {
+				for _, r2 := range *x.Referrers() {
+					switch y := r2.(type) {
+					case *ssa.DebugRef, *ssa.UnOp:
+					case *ssa.Store:
+						if y.Addr != ssa.Value(x) {
+							return false
+						}
+					default:
+						return false
+					}
+				}
+			}
+		case *ssa.UnOp:
+			if x.Op != token.MUL {
+				return false
+			}
+		case *ssa.Store:
+			if x.Addr != ssa.Value(al) {
+				return false
+			}
+		default:
+			return false
+		}
+	}
+	return true
 }
 
 func (a addrClass) same(b addrClass) bool {
@@ -481,7 +528,7 @@ func checkBodySite(p *Prog, c *Check, u ReaderUse, onPath map[*ssa.Function]bool
 			for _, ins := range b.Instrs {
 				switch x := ins.(type) {
 				case *ssa.Store:
-					if k, _, ok := classOfAddr(x.Addr); ok && k.same(cls) {
+					if k, _, ok := classOfAddr(x.Addr); ok && k.same(cls) && !storeIntoPrivateTemp(x) {
 						stores = append(stores, writer{fn: f, ins: ins})
 					}
 				case *ssa.Call:
@@ -553,6 +600,45 @@ func checkBodySite(p *Prog, c *Check, u ReaderUse, onPath map[*ssa.Function]bool
 		sameObj = base == w.recv
 		why = "same base value in one function"
 	default:
+		// the header object handed to the body stage by value (a value receiver): the body stage works on a copy of
+		// the caller's header object, taken after the header reads
+		if al, isAl := base.(*ssa.Alloc); isAl {
+			var vp *ssa.Parameter
+			if al.Referrers() != nil {
+				for _, r := range *al.Referrers() {
+					if st, ok := r.(*ssa.Store); ok && st.Addr == ssa.Value(al) {
+						if q, ok := st.Val.(*ssa.Parameter); ok {
+							vp = q
+						}
+					}
+				}
+			}
+			if vp != nil {
+				bi := paramIndex(fn, vp)
+				for _, cf := range sortedFuncs(onPath) {
+					for _, ci := range p.Calls(cf) {
+						call, ok := ci.Site.(*ssa.Call)
+						if !ok || bi < 0 || bi >= len(call.Common().Args) {
+							continue
+						}
+						for _, cal := range ci.Callees {
+							if cal != fn {
+								continue
+							}
+							cp, ok := call.Common().Args[bi].(*ssa.UnOp)
+							if !ok || cp.Op != token.MUL {
+								continue
+							}
+							if cp.X == w.recv && w.fn == cf && w.ins.Block().Dominates(cp.Block()) && (w.ins.Block() != cp.Block() || instrIndex(w.ins) < instrIndex(cp)) {
+								sameObj = true
+								why = "caller " + qname(cf) + " hands the body stage a copy of the header object taken after the length reader has filled it"
+								checkBetweenStages(p, c, cf, w.call, call)
+							}
+						}
+					}
+				}
+			}
+		}
 		bp, ok1 := base.(*ssa.Parameter)
 		hp, ok2 := w.recv.(*ssa.Parameter)
 		if ok1 && ok2 {
@@ -637,45 +723,7 @@ func checkBodySite(p *Prog, c *Check, u ReaderUse, onPath map[*ssa.Function]bool
 							// R6.4 in this caller: once the header stage has succeeded, every way out leads through the
 							// body stage — an exit in between (decided by anything but the header stage's own failure)
 							// leaves the frame's body in the stream
-							for _, rb := range cf.Blocks {
-								ret, isRet := terminator(rb).(*ssa.Return)
-								if !isRet || bCall.Block().Dominates(rb) {
-									continue
-								}
-								onHdrErr := false
-								for _, ib := range cf.Blocks {
-									iff, ok := terminator(ib).(*ssa.If)
-									if !ok {
-										continue
-									}
-									bo, ok := iff.Cond.(*ssa.BinOp)
-									if !ok || (bo.Op != token.NEQ && bo.Op != token.EQL) {
-										continue
-									}
-									var x ssa.Value
-									if isNilConst(bo.Y) {
-										x = bo.X
-									} else if isNilConst(bo.X) {
-										x = bo.Y
-									}
-									ex, ok := x.(*ssa.Extract)
-									if !ok || ex.Tuple != ssa.Value(hCall) {
-										if cl, isCall := x.(*ssa.Call); !isCall || cl != hCall {
-											continue
-										}
-									}
-									side := 0
-									if bo.Op == token.EQL {
-										side = 1
-									}
-									if edgeDominates(ib, ib.Succs[side], rb) {
-										onHdrErr = true
-									}
-								}
-								if !onHdrErr {
-									c.Bad("R6.4", qname(cf)+"#between-stages", posOf(p, ret), "an exit after the header stage that neither follows its failure nor leads through the body stage: the frame's body is left in the stream and the next call reads it as a header")
-								}
-							}
+							checkBetweenStages(p, c, cf, hCall, bCall)
 						} else {
 							why = "the header object is touched between the two stages in " + qname(cf)
 						}
@@ -804,6 +852,57 @@ func checkBodySite(p *Prog, c *Check, u ReaderUse, onPath map[*ssa.Function]bool
 	}
 	if okAll {
 		c.OK("R6.4", cons, pos, "every exit lies behind the body read or on the `length == 0` edge (no read)")
+	}
+}
+
+// checkBetweenStages (R6.4): in the function that runs the header stage (its last call hCall) and then the body
+// stage (bCall), every return that does not lie behind the body stage lies on the failure edge of a header read.
+func checkBetweenStages(p *Prog, c *Check, cf *ssa.Function, hCall, bCall *ssa.Call) {
+	// every call in cf that reads header bytes before the body stage may fail
+	hdr := map[ssa.Value]bool{ssa.Value(hCall): true}
+	for _, u := range p.ReaderUses(cf) {
+		if u.Call != nil && u.Call != bCall && u.Call.Block().Dominates(bCall.Block()) {
+			hdr[ssa.Value(u.Call)] = true
+		}
+	}
+	for _, rb := range cf.Blocks {
+		ret, isRet := terminator(rb).(*ssa.Return)
+		if !isRet || bCall.Block().Dominates(rb) {
+			continue
+		}
+		onHdrErr := false
+		for _, ib := range cf.Blocks {
+			iff, ok := terminator(ib).(*ssa.If)
+			if !ok {
+				continue
+			}
+			bo, ok := iff.Cond.(*ssa.BinOp)
+			if !ok || (bo.Op != token.NEQ && bo.Op != token.EQL) {
+				continue
+			}
+			var x ssa.Value
+			if isNilConst(bo.Y) {
+				x = bo.X
+			} else if isNilConst(bo.X) {
+				x = bo.Y
+			}
+			ex, ok := x.(*ssa.Extract)
+			if !ok || !hdr[ex.Tuple] {
+				if cl, isCall := x.(*ssa.Call); !isCall || !hdr[ssa.Value(cl)] {
+					continue
+				}
+			}
+			side := 0
+			if bo.Op == token.EQL {
+				side = 1
+			}
+			if edgeDominates(ib, ib.Succs[side], rb) {
+				onHdrErr = true
+			}
+		}
+		if !onHdrErr {
+			c.Bad("R6.4", qname(cf)+"#between-stages", posOf(p, ret), "an exit after the header stage that neither follows its failure nor leads through the body stage: the frame's body is left in the stream and the next call reads it as a header")
+		}
 	}
 }
 
